@@ -255,6 +255,20 @@ def haar(d, rng):
     return qm * (np.diag(r) / np.abs(np.diag(r)))
 
 
+def angle_container(thetas, salt=0):
+    """the same angle sequence handed over as a list, a tuple or a NumPy array (the choice is a deterministic function of the values, so a case
+    replays identically): every sequence form must give the transformation over exactly these angles"""
+    if thetas is None:
+        return None
+    vals = [float(t) for t in thetas]
+    form = (len(vals) + salt + int(sum(abs(v) for v in vals) * 1000)) % 4
+    if form == 1:
+        return tuple(vals)
+    if form == 2:
+        return np.array(vals, dtype=float)
+    return list(thetas)
+
+
 def build_evt(case, thetas):
     """(evt object, block gate, register fields, info) for an evt case; the placement is: field F (auxiliary + encoding qubits, by label),
     then the field of the encoded system"""
@@ -304,9 +318,9 @@ def build_evt(case, thetas):
                 pass
         H.J, H.h, H.g = Jf, hf, gf
         block.method = getattr(qib.operator.BlockEncodingMethod, e["method"])
-        evt.set_theta_seq(thetas)
+        evt.set_theta_seq(angle_container(thetas, 1))
     else:
-        evt = _ctx["E"](block, proc, thetas)
+        evt = _ctx["E"](block, proc, angle_container(thetas))
     fields = [fF] + ([fH] if fH is not None else [])
     return evt, block, fields, {"ns": ns, "fF": fF}
 
@@ -993,7 +1007,7 @@ def impl_evt_history(case):
                 except Exception as e:
                     extra["matrix_raised"] = f"{type(e).__name__}: {e}"[:80]
             elif k == "set_theta_seq":
-                evt.set_theta_seq(None if op["thetas"] is None else list(op["thetas"]))
+                evt.set_theta_seq(angle_container(op["thetas"], 2))
             elif k == "set_auxiliary_qubits":
                 call_one(evt.set_auxiliary_qubits, op["a"], qs)
             elif k == "set_projection_state":
